@@ -11,7 +11,7 @@
    the innermost binding, so [tc.vars[initialVars:]] is [firstn (len - initial)]
    and [tc.vars[:initialVars]] is [skipn (len - initial)].
    Definitions only. *)
-From Soy Require Import Model.Bytes Model.Values Model.Outcome Model.Ast Model.RefView.
+From Soy Require Import Model.Bytes Model.Values Model.Outcome Model.Ast Model.RefView Generated.Tables.
 Open Scope N_scope.
 
 (* ------------------------------------------------------------------ *)
@@ -191,10 +191,17 @@ Fixpoint soydoc_params (ps : list node) : option (list (bstr * bool)) :=
   | _ :: _ => None                               (* []*SoyDocParamNode in Go *)
   end.
 
-(* leading header params of the template body, and the rest *)
+(* leading header params of the template body, and the rest.  Each becomes a
+   SoyDocParamNode{Name, Optional}; the expression for Optional is regenerated
+   from registry.go (Generated.Tables.header_param_optional: at present just the
+   ? marker -- the Default expression is parsed and stored but never applied by
+   the renderer, so a default does not make a param optional) *)
+Definition is_some {A} (o : option A) : bool := match o with Some _ => true | None => false end.
 Fixpoint split_header (ns : list node) : list (bstr * bool) * list node :=
   match ns with
-  | NHeaderParam _ opt name _ _ :: r => let '(hs, rest) := split_header r in ((name, opt) :: hs, rest)
+  | NHeaderParam _ opt name typ dflt :: r =>
+      let '(hs, rest) := split_header r in
+      ((name, header_param_optional opt (is_some dflt) (match typ with [] => false | _ => true end)) :: hs, rest)
   | _ => ([], ns)
   end.
 
